@@ -4,6 +4,8 @@
 //!        qxmc replay <file>
 
 mod common;
+mod inputs;
+mod trace;
 mod props;
 #[allow(dead_code)]
 mod models;
